@@ -6,6 +6,15 @@ import z3
 from .zsym import Ctx, Budget, Sym, SymNum, SymBool, lift, model_value, term
 
 
+def wrapper_exc(e):
+    """True if the exception stems from something the number wrapper cannot carry (never a verdict by itself)"""
+    from .zsym import SymTypeError
+
+    if isinstance(e, SymTypeError):
+        return True
+    return isinstance(e, TypeError) and any(w in str(e) for w in ("SymNum", "SymBool", "SegStr", "Dual"))
+
+
 def eq_term(a, b):
     """z3 Bool 'a == b' for python/Sym numbers (exact lifting); plain python equality when both concrete"""
     ta, tb = lift(a), lift(b)
